@@ -28,7 +28,7 @@ COMPONENTS = {"real": ["server runtime stack incl. PersistenceDecorator._on_serv
               "stub": ["llama_index_instrumentation"], "sim": ["loop, clocks, SQLite seam (crash fence at commit granularity), incarnations"]}
 ASSUMPTIONS = ["process crash: only committed SQLite transactions survive; power loss / torn pages out of scope",
                "after the restart the driver sends the finishing event once the new incarnation is quiescent"]
-EXPECTED_PROBES = ["crash-with-step-in-progress", "crash-right-after-step_result", "crash-after-last-tick", "restart-resumed-run"]
+EXPECTED_PROBES = ["reference-cancelled", "crash-after-persisted-cancel", "crash-with-step-in-progress", "crash-right-after-step_result", "crash-after-last-tick", "restart-resumed-run"]
 LEVEL_TEXT = ("Fault enumeration over crash points (every persisted tick of each sampled run in the thorough tier) on top of seeded "
               "sampling of programs and schedules; differential against the uninterrupted run.")
 LEVEL_NOTE = "Trusted: simulator loop, crash fence of the SQLite seam (commit = unit of durability), determinism-by-construction of the programs."
@@ -67,6 +67,19 @@ def make_scenario(crash_k):
             SEAM.crash_plan = {"table": "ticks", "k": crash_k, "inc": 1}
         start = EV.Start0(uid=world.uid())
         st = inc.spawn(inc.service.start_workflow(wf, "h1", start_event=start))
+        cancel_at = world.tape.choice([0, 1, 1, 2, 3], "cancel.at") if world.tape.chance(25, 100, "cancel-arm?") else None
+        world._cancel_arm = cancel_at is not None
+        if cancel_at is not None:
+            # a user cancel accepted by the first incarnation: once its tick is persisted the run is over for every later restart
+            async def canc():
+                await asyncio.sleep(cancel_at)
+                world.trace.log("cancel-request")
+                world.fault("cancel-handler")
+                try:
+                    await inc.service.cancel_handler("h1")
+                except BaseException as e:  # noqa: BLE001
+                    world.trace.log("cancel-error", exc=type(e).__name__)
+            inc.spawn(canc())
         ce = asyncio.ensure_future(world.crash_event.wait())
         q = world.loop.quiesce()
         await asyncio.wait([q, ce], return_when=asyncio.FIRST_COMPLETED)
@@ -86,6 +99,13 @@ def make_scenario(crash_k):
             out["ticks_at_crash"] = len(tick_kinds)
             await world.kill(inc)
             world.open_bodies.clear()
+            try:
+                c_ = real_sqlite3.connect(world.tmp.db())
+                r_ = c_.execute("SELECT idle_since FROM handlers WHERE handler_id='h1'").fetchone()
+                c_.close()
+                out["idle_marked_at_crash"] = bool(r_ and r_[0] is not None)
+            except real_sqlite3.Error:
+                out["idle_marked_at_crash"] = None
             inc2 = world.new_incarnation()
             inc2.add_workflow("wf", spec)
             await inc2.start()
@@ -114,6 +134,7 @@ def make_scenario(crash_k):
                 out["send_error"] = f"{type(e).__name__}: {e}"
             await world.loop.quiesce()
         out["final"] = _row(world)
+        out["cancel_arm"] = bool(world._cancel_arm)
         out["n_ticks"] = SEAM.commits.get("ticks", 0)
         out["tick_kinds"] = list(tick_kinds)
         world.trace.log("quiescent", phase="end")
@@ -159,12 +180,19 @@ def run(tape, thorough=False):
     agg = res0
     agg["evals"] = 1
     agg["nontrivial_shapes"] = set()
-    if res0["harness"] or not ref or not ref.get("final") or ref["final"][0] != "completed":
+    cancelled_ref = bool(ref and ref.get("cancel_arm") and ref.get("final") and ref["final"][0] == "cancelled" and "TickCancelRun" in ref["tick_kinds"])
+    if res0["harness"] or not ref or not ref.get("final") or (ref["final"][0] != "completed" and not cancelled_ref):
         agg["nontrivial_shapes"] = []
         return agg
+    if cancelled_ref:
+        agg["probes"]["reference-cancelled"] = agg["probes"].get("reference-cancelled", 0) + 1
     n = ref["n_ticks"]
     kinds = ref["tick_kinds"]
-    if thorough:
+    if cancelled_ref:
+        # only restarts after the cancel was persisted are comparable (nobody re-issues the cancel after a restart)
+        ci = kinds.index("TickCancelRun") + 1
+        ks = list(range(ci, n + 1)) if thorough else sorted({ci, min(ci + 1, n), n})
+    elif thorough:
         ks = list(range(1, n + 1))
     else:
         after_result = [i + 1 for i, k in enumerate(kinds) if k.startswith("TickStepResult")]
@@ -220,6 +248,18 @@ def run(tape, thorough=False):
         reran = [e for e in (enters or []) if e.get("inc") == 2]
         if reran:
             agg["probes"]["restart-resumed-run"] = agg["probes"].get("restart-resumed-run", 0) + 1
+        if cancelled_ref:
+            agg["probes"]["crash-after-persisted-cancel"] = agg["probes"].get("crash-after-persisted-cancel", 0) + 1
+            if final is None or final[0] != "cancelled":
+                vio.append(("C13.finalize", f"the persisted ticks contain the user's cancel (crash after tick #{k}, {kth}), but after restart the handler is {final}",
+                            {"how": "cancel-not-finalized", "reran": bool(reran), "idle_marked_at_crash": out.get("idle_marked_at_crash")}))
+            elif reran:
+                vio.append(("C13.finalize", f"persisted cancel, but steps were executed again after restart: {[e['step'] for e in reran]}", {"how": "cancelled-re-run"}))
+            for rule, msg, c in vio:
+                agg["violations"] = agg["violations"] + [{"rule": rule, "cause": c, "seq": 0, "msg": msg}]
+            if vio and res.get("trace_excerpt"):
+                agg["trace_excerpt"] = res["trace_excerpt"]
+            continue
         if k == n and kinds and kinds[-1].startswith("TickStepResult:zfin"):
             # persisted ticks already end the run: must be finalized, not re-run
             if final is None or final[0] != "completed":
